@@ -395,6 +395,13 @@ Step_C09 ==
          /\ e.id \in DOMAIN ctx /\ ctx[e.id].state = "running"
          /\ e.id \in DOMAIN ctx' /\ ctx'[e.id].state = "running"
 
+\* the zero-height preparation is no exception: what never changes does not change there, and a batch
+\* that has been issued stays counted
+Prep_C09 ==
+    \A id \in (DOMAIN ctx) \cap (DOMAIN ctx') :
+        /\ Immutable(ctx'[id]) = Immutable(ctx[id])
+        /\ ctx'[id].batch = ctx[id].batch
+
 -----------------------------------------------------------------------------
 (* C10  repeated invocations keep their cadence and respect their total *)
 
